@@ -164,7 +164,7 @@ def tlc_stage(rep):
     for k in range(1 if quick else 2):
         for i in range(1, 5):
             jobs.append(('sim{}{}'.format(i, 'abcd'[k]), '<< SimFamilies[{}] >>'.format(i), {},
-                         dict(workers=1, simulate=dict(num=100 if quick else 600), depth=16, seed=rep.seed + 13 + i + 100 * k, timeout=600 if quick else 2400)))
+                         dict(workers=1, simulate=dict(num=80 if quick else 600), depth=16, seed=rep.seed + 13 + i + 100 * k, timeout=600 if quick else 2400)))
     # 3. spec mutants: each must violate its lemma
     for name, inv in MUTANTS.items():
         jobs.append(('mutant-' + name, 'MutantFamilies', dict(mutant=name, invariants=[inv], emit=False), dict(workers=1, timeout=600)))
@@ -214,7 +214,7 @@ def replay_stage(rep, exh, sim, tables):
     rng = random.Random(rep.seed)
     quick = rep.tier == 'quick'
     # ---- 4. selection of the groups (program + all predicted outcomes) to replay
-    budget = 3200 if quick else 12000
+    budget = 3000 if quick else 12000
     egroups = list(exh.values())
     rng.shuffle(egroups)
     # round robin over (vocabulary, manipulation signature) classes: every kind of behaviour TLC produced is replayed before a
